@@ -10,7 +10,7 @@
    [nodupk (map (dkey src) ds)]: its deposits are pairwise different (destination, nonce). *)
 From Coq Require Import List NArith Bool.
 Import ListNotations.
-From SygmaV Require Import Model.C17 Proofs.C17.
+From SygmaV Require Import Model.C17 Proofs.C17 Proofs.C17_Conc.
 Local Open Scope N_scope.
 
 (* A retry re-emits those and only those deposits of the block that are selected (destination and
@@ -109,6 +109,68 @@ Theorem C17_judge_step_retry : forall univ pre p src res dest ds ou failed post,
              (forall d, In d em -> startable (get post (dkey src d)) = true).
 Proof. exact judge_step_retry. Qed.
 Print Assumptions C17_judge_step_retry.
+
+(* ---- concurrent use of one store ----
+   Operations on different keys commute: two threads (local states x1, x2: fault schedule, mutex bit,
+   deliveries) whose next operations o1, o2 name no common key reach, in either order, the same
+   results, the same local states and store contents with the same status for every key. *)
+Theorem C17_disjoint_commute : forall o1 o2 x1 x2 m xa oua xb oub xb' oub' xa' oua',
+  (forall k, In k (touched (batches x1) o1) -> ~ In k (touched (batches x2) o2)) ->
+  step o1 (with_kv m x1) = (xa, oua) -> step o2 (with_kv (s_kv (st xa)) x2) = (xb, oub) ->
+  step o2 (with_kv m x2) = (xb', oub') -> step o1 (with_kv (s_kv (st xb')) x1) = (xa', oua') ->
+  oua = oua' /\ oub = oub' /\ local xa = local xa' /\ local xb = local xb' /\
+  forall k, get (s_kv (st xb)) k = get (s_kv (st xa')) k.
+Proof. exact disjoint_commute. Qed.
+Print Assumptions C17_disjoint_commute.
+
+(* An operation changes only keys it names (given the deliveries made so far). *)
+Theorem C17_step_frame : forall o x k, ~ In k (touched (batches x) o) ->
+  get (s_kv (st (fst (step o x)))) k = get (s_kv (st x)) k.
+Proof. exact step_frame. Qed.
+Print Assumptions C17_step_frame.
+
+(* EVERY interleaving (schedule = which thread makes its next operation; any length, any order) of
+   threads laid out as [conc_wf] says - pairwise disjoint own keys, shared keys recorded executed
+   (any operation may name them), shared non-pending keys named by retries only: what thread i
+   observed is, on the keys it can name, the run of a prefix of its operation list ALONE from the
+   initial contents, and the final contents agree with the end of that solo run. *)
+Theorem C17_conc_projection : forall Ks RE RO m ts sched i t,
+  conc_wf Ks RE RO m ts = true -> nth_error ts i = Some t ->
+  exists n,
+    obs_sim (view Ks RE RO i) (proj i (fst (crun sched (m, ts)))) (run (firstn n (t_ops t)) (with_kv m (t_x t))) /\
+    agree_on (view Ks RE RO i) (fst (snd (crun sched (m, ts))))
+             (s_kv (st (final (firstn n (t_ops t)) (with_kv m (t_x t))))).
+Proof. exact conc_projection. Qed.
+Print Assumptions C17_conc_projection.
+
+(* ... hence the judge of the concurrent correspondence cases (per thread: the sequential judge on its
+   own history; what it last saw executed is executed in the final contents) accepts every
+   interleaving of the model. *)
+Theorem C17_conc_judge_accepts : forall Ks RE RO m ts sched i t,
+  conc_wf Ks RE RO m ts = true -> nth_error ts i = Some t ->
+  exists n,
+    thread_judge (view Ks RE RO i) m (firstn n (t_ops t)) (proj i (fst (crun sched (m, ts))))
+                 (fst (snd (crun sched (m, ts)))) = true.
+Proof. exact conc_judge_accepts. Qed.
+Print Assumptions C17_conc_judge_accepts.
+
+(* Executed is final in every interleaving of ANY threads, whatever keys they share. *)
+Theorem C17_conc_executed_absorbing : forall sched c k,
+  is_exec (get (fst c) k) = true -> is_exec (get (fst (snd (crun sched c))) k) = true.
+Proof. exact conc_executed_absorbing. Qed.
+Print Assumptions C17_conc_executed_absorbing.
+
+(* Non-vacuity of the concurrent theorems: a well-formed layout (two threads, a shared executed key
+   and a shared read-only key), and both threads see the same in two different interleavings. *)
+Example C17_conc_nonvacuous :
+  conc_wf cw_Ks cw_RE cw_RO cw_init [cw_t0; cw_t1] = true /\
+  map (fun ob : obs => fst ob) (proj 0 (fst (crun [0; 0; 0; 1; 1; 1]%nat (cw_init, [cw_t0; cw_t1]))))
+  = map (fun ob : obs => fst ob) (proj 0 (fst (crun [1; 0; 1; 0; 1; 0]%nat (cw_init, [cw_t0; cw_t1])))) /\
+  map (fun ob : obs => fst (fst ob)) (proj 1 (fst (crun [1; 0; 1; 0; 1; 0]%nat (cw_init, [cw_t0; cw_t1]))))
+  = [ORetry [mkDep 3 1 7; mkDep 3 9 7]; ODeliver (Some [(1, 3, 1)]); OExec] /\
+  map (fun ob : obs => fst ob) (proj 0 (fst (crun [1; 0; 1; 0; 1; 0]%nat (cw_init, [cw_t0; cw_t1]))))
+  = [(ORetry [mkDep 2 1 7; mkDep 2 2 7], [(1, 2, 9)]); (ODeliver (Some [(1, 2, 1)]), []); (OExec, [])].
+Proof. vm_compute. repeat split. Qed.
 
 (* The two isExecuted copies (relayer/retry and the EVM RetryV1 handler) are the same function. *)
 Theorem C17_is_executed_copies_agree : is_executed_v1 = is_executed_retry.
